@@ -67,7 +67,7 @@ class C05(Prop):
             "AGP->TPF->AGP; a non-well-formed stream (blank/#/tab-bearing names, empty tags, zero/negative gaps, odd "
             "gap types, odd headers) compared with the model only; corrupt: canonical texts with one corrupted line "
             "(missing/extra column, bad strand, bad coordinate, start>end, blank/comment line inserted, GAP first, "
-            "duplicate line). non-trivial = distinct case"
+            "duplicate line); cli: asm-format on 1-3 input files (AGP/TPF by extension) written to -o FILE and to STDOUT as AGP and TPF -- every row of every input must arrive. non-trivial = distinct case"
         )
 
     def generate(self, rng, tier):
@@ -84,9 +84,43 @@ class C05(Prop):
             text = T.fmt(a, which)
             kind, bad = corrupt(rng, text, which)
             yield {"gen": f"corrupt/{which}/{kind}", "kind": "text", "fmt": which, "text": bad}
+        # asm-format itself: one to three input files (AGP / TPF by extension), output to -o FILE
+        # and to STDOUT, converted to AGP and to TPF
+        for k in range(24 if tier == "quick" else 200):
+            nfiles = 1 + k % 3
+            yield {"gen": f"cli/{nfiles}files", "kind": "cli", "fmt": "tpf",
+                   "inputs": [{"fmt": rng.choice(["agp", "tpf"]), "asm": T.gen_asm(rng, tpf_able=True, maxcoord=10**6)}
+                              for _ in range(nfiles)],
+                   "out": rng.choice(["agp", "tpf"])}
+
+    def run_cli(self, case):
+        from click.testing import CliRunner
+        from tola.assembly.scripts import asm_format
+        from .. import core
+
+        d = core.BUILD / self.pid / "cli"
+        d.mkdir(parents=True, exist_ok=True)
+        paths, texts = [], []
+        for i, inp in enumerate(case["inputs"]):
+            t = T.fmt(inp["asm"], inp["fmt"])
+            pth = d / f"in{i}.{inp['fmt']}"
+            pth.write_text(t)
+            paths.append(str(pth))
+            texts.append(t)
+        out = d / f"out.{case['out']}"
+        if out.exists():
+            out.unlink()
+        r1 = CliRunner().invoke(asm_format.cli, [*paths, "-o", str(out)])
+        r2 = CliRunner().invoke(asm_format.cli, [*paths, "-f", case["out"].upper()])
+        import gc
+        gc.collect()          # the -o handle is never closed by the script: flushed when collected
+        return {"exit": [r1.exit_code, r2.exit_code], "file": out.read_text() if out.exists() else None,
+                "stdout": r2.stdout, "inputs": texts}
 
     def run_impl(self, case):
         which = case["fmt"]
+        if case["kind"] == "cli":
+            return self.run_cli(case)
         if case["kind"] == "text":
             return {"parsed": T.parse(case["text"], which)}
         text = T.fmt(case["asm"], which)
@@ -103,6 +137,14 @@ class C05(Prop):
 
     def term(self, case, obs):
         which = case["fmt"]
+        if case["kind"] == "cli":
+            # every input file parsed by the model, every output section formatted by the model
+            ts = []
+            for inp, text in zip(case["inputs"], obs["inputs"]):
+                Ci = "Agp" if inp["fmt"] == "agp" else "Tpf"
+                want = inp["asm"] if inp["fmt"] == "agp" else drop_tags(inp["asm"])
+                ts.append(lambda names, Ci=Ci, text=text, want=want: f"CParse{Ci} {names(text)} {T.opt_asm(want, names)}")
+            return ts
         C = "Agp" if which == "agp" else "Tpf"
         if case["kind"] == "text":
             return lambda names: f"CParse{C} {names(case['text'])} {T.opt_asm(obs['parsed'], names)}"
@@ -113,6 +155,26 @@ class C05(Prop):
 
     def oracle(self, case, obs):
         which = case["fmt"]
+        if case["kind"] == "cli":
+            if obs["exit"] != [0, 0]:
+                return f"asm-format exited {obs['exit']} on valid input files"
+            want = ""
+            nrows = 0
+            for inp in case["inputs"]:
+                a = inp["asm"] if inp["fmt"] == "agp" else drop_tags(inp["asm"])
+                want += T.fmt(a, case["out"])
+                nrows += sum(len(sc["rows"]) for sc in a["scaffolds"])
+            for where in ("file", "stdout"):
+                got = obs[where]
+                if got is None:
+                    return "asm-format -o wrote no file"
+                n = sum(1 for ln in got.split("\n") if ln.strip() and not ln.startswith("#"))
+                if n != nrows:
+                    return (f"{nrows} rows in {len(case['inputs'])} input file(s) but {n} rows in the {case['out'].upper()} "
+                            f"written to {where} (rows silently lost or invented)")
+                if got != want:
+                    return f"asm-format output ({where}) differs from the formatted input assemblies"
+            return None
         if case["kind"] == "text":
             p = obs["parsed"]
             if "err" in p:
@@ -157,6 +219,8 @@ class C05(Prop):
         return None
 
     def classify(self, case, obs):
+        if case["kind"] == "cli":
+            return case["gen"]
         if case["kind"] == "text":
             return case["gen"].rsplit("/", 1)[0] + ("/Err" if "err" in obs["parsed"] else "/Ok")
         return case["gen"]
